@@ -170,7 +170,7 @@ func init() {
 	}
 	execs["C15toma"] = func(r *RNG, c *Case) { execs[c.Prop](r, c) }
 	gens["C15topa"] = func(r *RNG, id string) *Case {
-		if r.Chance(1, 100) {
+		if atScale(r, 100) {
 			// scale: a genome of 66 000 - 72 000 bases, two reads over all of it with a few small insertions and deletions,
 			// a window that lies beyond (or straddles) column 65 536
 			c := NewCase("TOPA", id)
